@@ -1,6 +1,7 @@
 // @id C04.tidy_cut_independent
 // @engine B
 // @entry vfh_C04_tidy_cut
+// @shared_state_watch
 // @tier Q
 // @reach tidy.compared
 // @funcs Phreeqc::tidy_model; Phreeqc::get_input_errors
